@@ -152,7 +152,16 @@ def terminal_rules(chk, S, r3):
         captured["ctor"] = (a, kw)
 
         def solve_save_at(itp2, a2, kw2, site2):
-            captured["call"] = (a2, kw2)
+            # bind positional arguments by the signature of the real inner solve(u, save_at, atol, rtol, dt0, eps, damp)
+            import ast as _ast
+
+            outer = itp2.p.module(ADAPT).functions["solve_adaptive_save_at"]
+            inner = next((n for n in _ast.walk(outer) if isinstance(n, _ast.FunctionDef) and n.name == "solve"), None)
+            names = [p_.arg for p_ in (inner.args.posonlyargs + inner.args.args)] if inner is not None else []
+            bound = dict(kw2)
+            for nm, v in zip(names, a2):
+                bound.setdefault(nm, v)
+            captured["call"] = (a2, bound)
             return A("solution")
 
         return HarnessFn("solve_save_at", solve_save_at)
